@@ -497,8 +497,43 @@ def run(chk):
            isinstance(x.value, ast.Call) and call_tail(x.value) == 'sorted'
            for x in walk_local(fi.node))
   chk.ob('C07-R2', ok, None, 'GROUP BY keys are sorted', 'GROUP BY follows set order', fi=fi)
+  conjunct_translation_is_local(chk, 'C07-R2')
   # UNION ALL keeps program order of rules: PredicateSql iterates GetPredicateRules
   fi = repo.func('universe.LogicaProgram.GetPredicateRules')
   ok = any(isinstance(x, ast.For) and dotted(x.iter) == 'self.rules' for x in walk_local(fi.node))
   chk.ob('C07-R2', ok, None, 'rules of a predicate are enumerated from the ordered rule list',
          'rule enumeration no longer follows self.rules', fi=fi)
+
+
+def conjunct_translation_is_local(chk, rid):
+  """Permuting conjuncts changes what the structure under construction holds
+  when a given conjunct is reached, never the conjunct.  So the handlers of
+  the conjunct kinds (Extract*Structure with the structure as a parameter)
+  choose the translation from the conjunct alone: no test in them reads the
+  structure (its fields, its methods, or a helper given the structure)."""
+  repo = chk.repo
+  m = repo.by_name('rule_translate')
+  n = 0
+  for q, fi in sorted(m.funcs.items()):
+    if not q.startswith('Extract') or '.' in q or len(fi.params) != 2:
+      continue
+    sp = fi.params[1]
+    n += 1
+    bad = None
+    for x in walk_local(fi.node):
+      if not isinstance(x, (ast.If, ast.While, ast.IfExp, ast.Assert)):
+        continue
+      for y in ast.walk(x.test):
+        if isinstance(y, ast.Attribute) and dotted(y.value) == sp and y.attr != 'allocator':
+          bad = (x, norm(y, 40))
+        elif isinstance(y, ast.Call) and any(dotted(a) == sp for a in y.args):
+          bad = (x, norm(y, 40))
+    chk.ob(rid, bad is None, None,
+           '%s chooses the translation from the conjunct alone' % q,
+           'a test reads the structure built from the conjuncts before it (`%s`): the '
+           'same conjunct is translated differently depending on where it stands, so '
+           'permuting conjuncts changes the SQL (and, where the forms differ in '
+           'multiplicity, the rows)' % (bad[1] if bad else ''), fi=fi,
+           node=bad[0] if bad else None)
+  if n < 3:
+    raise AnalysisError('conjunct handlers of rule_translate not recognised (%d)' % n)
